@@ -141,6 +141,8 @@ fn operands() -> Vec<Term> {
         var("vz", "0"), cmd("5"), cmd("x y"), cmd(" 12 "), var("vx", "0x1F"), var("vn", "-0.0"),
         // neighbouring integers that no f64 tells apart
         int(9223372036854775806), int(9007199254740993), int(9007199254740992), var("vm1", "-9223372036854775807"),
+        // exponent spellings and halves (rounding away from zero, both signs)
+        flt("1E3"), var("ve", "1.5E2"), strq("1E2"), flt("2.5"), flt("1.5"), var("vh", "-2.5"), var("vh2", "-0.5"),
     ]
 }
 
